@@ -439,6 +439,7 @@ func (t *T) genGobW() string {
 	sb.WriteString(t.genGobCodecs(true))
 	sb.WriteString(t.genGobEncItem())
 	sb.WriteString(t.genGobWrappers(true))
+	sb.WriteString(t.genGobFrames(true))
 	sb.WriteString(t.gobMethods("GobEncode", "gob_enc_methods"))
 	sb.WriteString(t.gobAliases("MarshalBinary", "gob_marshal_binary"))
 	return sb.String()
@@ -571,6 +572,8 @@ func (t *T) genGobR() string {
 	sb.WriteString(t.genGobCodecs(false))
 	sb.WriteString(t.genGobTyperPresets())
 	sb.WriteString(t.genGobWrappers(false))
+	sb.WriteString(t.genGobFrames(false))
+	sb.WriteString(t.genGobSniffLocals())
 	sb.WriteString(t.gobMethods("GobDecode", "gob_dec_methods"))
 	sb.WriteString(t.gobAliases("UnmarshalBinary", "gob_unmarshal_binary"))
 	return sb.String()
